@@ -163,6 +163,18 @@ func (t *Topic) DeleteExistingChannel(channelName string) error {
 	numChannels := len(t.channelMap)
 	t.Unlock()
 
+	// the metadata persisted on behalf of channel.Delete() (see Notify) may
+	// have been written while the channel was still listed: persist again now
+	// that it is gone, otherwise a hard kill resurrects it
+	if !channel.ephemeral && !t.ephemeral && atomic.LoadInt32(&t.nsqd.isLoading) != 1 {
+		t.nsqd.Lock()
+		err := t.nsqd.PersistMetadata()
+		if err != nil {
+			t.nsqd.logf(LOG_ERROR, "failed to persist metadata - %s", err)
+		}
+		t.nsqd.Unlock()
+	}
+
 	// update messagePump state
 	select {
 	case t.channelUpdateChan <- 1:
